@@ -214,6 +214,15 @@ def _transfer_factory(cfg):
                         isinstance(st, ast.Assign) and d != "mode" and dotted(st.value) == "mode"):
                     for k in [k for k in w if isinstance(k, tuple) and k[0] == "mode"]:
                         w.pop(k)
+                if isinstance(t, ast.Name):
+                    # a local that holds the open mode: `open_mode = "w"` in one branch, `"r"` in another
+                    cv = const(st.value) if isinstance(st, ast.Assign) else None
+                    if isinstance(cv, bytes):
+                        cv = cv.decode()
+                    if isinstance(cv, str) and len(cv) <= 3:
+                        w[("strvar", t.id)] = cv
+                    else:
+                        w.pop(("strvar", t.id), None)
                 if d in ("filename",):
                     w.pop("exists", None)
                 if d and d.endswith("flags"):
@@ -241,6 +250,8 @@ def world_mode_is_write(world, mode_expr):
     if isinstance(c, str):
         return _is_destructive_mode(c)
     d = dotted(mode_expr)
+    if isinstance(mode_expr, ast.Name) and ("strvar", mode_expr.id) in world:
+        return _is_destructive_mode(world[("strvar", mode_expr.id)])
     if d in ("mode", "self.mode", "self._mode"):
         for k, v in world.items():
             if isinstance(k, tuple) and k[0] == "mode" and len(k) == 2:
@@ -717,5 +728,5 @@ def _modestr(c):
 def _fmt_world(w):
     if not w:
         return "{nothing known}"
-    return "{" + ", ".join("%s=%s" % (k if isinstance(k, str) else ("mode==%r" % k[1] if len(k) == 2 else ".".join(k[1:])), v)
+    return "{" + ", ".join("%s=%s" % (k if isinstance(k, str) else (k[1] if k[0] == "strvar" else "mode==%r" % k[1] if len(k) == 2 else ".".join(k[1:])), v)
                            for k, v in sorted(w.items(), key=str)) + "}"
